@@ -426,6 +426,7 @@ func init() {
 						for _, ttype := range schema.TypeMap() {
 							results = append(results, ttype)
 						}
+						sort.Slice(results, func(i, j int) bool { return results[i].Name() < results[j].Name() })
 						return results, nil
 					}
 					return []Type{}, nil
@@ -558,6 +559,7 @@ func init() {
 					}
 					fields = append(fields, field)
 				}
+				sort.Slice(fields, func(i, j int) bool { return fields[i].Name < fields[j].Name })
 				return fields, nil
 			}
 			return nil, nil
@@ -575,13 +577,18 @@ func init() {
 	TypeType.AddFieldConfig("possibleTypes", &Field{
 		Type: NewList(NewNonNull(TypeType)),
 		Resolve: func(p ResolveParams) (interface{}, error) {
+			var possible []*Object
 			switch ttype := p.Source.(type) {
 			case *Interface:
-				return p.Info.Schema.PossibleTypes(ttype), nil
+				possible = p.Info.Schema.PossibleTypes(ttype)
 			case *Union:
-				return p.Info.Schema.PossibleTypes(ttype), nil
+				possible = p.Info.Schema.PossibleTypes(ttype)
+			default:
+				return nil, nil
 			}
-			return nil, nil
+			sorted := append([]*Object(nil), possible...)
+			sort.Slice(sorted, func(i, j int) bool { return sorted[i].Name() < sorted[j].Name() })
+			return sorted, nil
 		},
 	})
 	TypeType.AddFieldConfig("enumValues", &Field{
@@ -618,6 +625,7 @@ func init() {
 				for _, field := range ttype.Fields() {
 					fields = append(fields, field)
 				}
+				sort.Slice(fields, func(i, j int) bool { return fields[i].PrivateName < fields[j].PrivateName })
 				return fields, nil
 			}
 			return nil, nil
